@@ -152,8 +152,16 @@ def _run_base(ctx):
         ctx.inst('R16.4', '%s:%s' % (PP, name), 'mkdtemp(); try: ... finally: rmtree', ok,
                  'temp dir is removed on every exit' if ok else 'temp dir can be left behind (rmtree not in a finally directly after mkdtemp)', fn)
     dr = repo.func(PP + ':diff_render')
-    lastif = [s for s in dr.body if isinstance(s, ast.If)][-1]
-    for test, body, node in if_chain(lastif)[0]:
+    # every tool test of the selection, whatever its layout (one if/elif chain, or guard clauses one after the other)
+    _arms = []
+    _seen_ifs = set()
+    for s_ in dr.body:
+        if isinstance(s_, ast.If) and id(s_) not in _seen_ifs:
+            for t_, b_, n_ in if_chain(s_)[0]:
+                if id(n_) not in _seen_ifs:
+                    _seen_ifs.add(id(n_))
+                    _arms.append((t_, b_, n_))
+    for test, body, node in _arms:
         for c in [x for x in ast.walk(test) if isinstance(x, ast.Call) and dotted(x.func) == 'which']:
             tool = const_val(c.args[0]) if c.args else None
             cmds = []
